@@ -5,6 +5,8 @@ import (
 	"context"
 	"encoding/json"
 	"fmt"
+	"runtime"
+	"strings"
 
 	"github.com/NethermindEth/juno/blockchain/networks"
 	"github.com/NethermindEth/juno/jsonrpc"
@@ -62,6 +64,7 @@ type reply struct {
 	ErrMsg string
 	ErrDat any
 	Bad    string // transport / framing problem (not a JSON-RPC response at all)
+	Panic  string // the handler panicked
 }
 
 func (r *reply) short() string {
@@ -95,9 +98,24 @@ func (q request) String() string {
 	return q.Method + string(b)
 }
 
-func (e *rpcEnv) call(ver string, q request) *reply {
+func (e *rpcEnv) call(ver string, q request) (rp *reply) {
+	// a panic inside a handler is an observation, not a harness failure
+	defer func() {
+		if p := recover(); p != nil {
+			buf := make([]byte, 4096)
+			buf = buf[:runtime.Stack(buf, false)]
+			where := ""
+			for _, l := range strings.Split(string(buf), "\n") {
+				if strings.Contains(l, "/repo/rpc/") {
+					where = strings.TrimSpace(l)
+					break
+				}
+			}
+			rp = &reply{Panic: fmt.Sprintf("%v at %s", p, where), Bad: fmt.Sprintf("handler panicked: %v at %s", p, where), Raw: fmt.Sprintf("PANIC %v", p)}
+		}
+	}()
 	raw, _, err := e.srv[ver].HandleReader(context.Background(), bytes.NewReader(q.bytes(7)))
-	rp := &reply{Raw: string(raw)}
+	rp = &reply{Raw: string(raw)}
 	if err != nil {
 		rp.Bad = "HandleReader error: " + err.Error()
 		return rp
